@@ -165,6 +165,42 @@ def easy_expected(model_line, nv, nc):
     return 'easy ok=%d x=%d y=%d sr=%d nbs=%d nsuf=%d m=%s' % (1 if code == 'OK' else 0, x, y, sr, nbs, nsuf, msg), (code, alt)
 
 
+def capi_expected(model_line, cap=9):
+    """what the C API (NLW2_Read2SOLHandler_C with plain C callbacks that read every offered value) must record, derived from the model's
+    normalised events for a read-all handler; `*` = values not comparable (the vector read failed: the C wrapper hands out indeterminate values)"""
+    head, _, evs = model_line.partition(' | ')
+    code = head.split(' ')[0].split('=')[1]
+    out = []
+    nopts = None
+    for e in (evs.split(' ; ') if evs else []):
+        p = e.split(' ')
+        if p[0] == 'opts':
+            ints = p[1].split(',')
+            nopts = len(ints)
+            out.append('opts n=%d cap=%d %s %s' % (len(ints), cap, ','.join(ints[:cap]), p[2]))
+        elif p[0] in ('dual', 'primal'):
+            out.append('%s %s %s' % (p[0], p[1], p[4] if p[2] == 'OK' else '*'))
+        elif p[0] == 'suf':
+            out.append('suf %s %s %s %s %s' % (p[1], p[2], p[3], 'OK' if p[5] == 'OK' else 'ERR', p[7]))
+        else:
+            out.append(e)
+    ok = code == 'OK'
+    return 'code=%s msg=%d | capi ok=%d ; %s' % ('OK' if ok else 'Error', 0 if ok else 1, 1 if ok else 0, ' ; '.join(out)), nopts
+
+
+def capi_match(exp, got):
+    a, b = exp.split(' ; '), got.split(' ; ')
+    if len(a) != len(b):
+        return False
+    for x, y in zip(a, b):
+        if x.endswith(' *'):
+            if x.split(' ')[:2] != y.split(' ')[:2]:
+                return False
+        elif x != y:
+            return False
+    return True
+
+
 def canon_impl(line):
     """canonicalise NaN payloads in an implementation line"""
     return re.sub(r'R([0-9a-f]{16})', lambda m: canon_R(m.group(1)), line)
@@ -186,6 +222,8 @@ def gen_cases(rng, n_cases):
                     meta['namelen'] = c['namelen']
                 if c.get('easy'):
                     meta['easy'] = True
+                if c.get('capi'):
+                    meta['capi'] = True
                 add('corpus:' + fn[:-5], bytes.fromhex(c['hex']), c['nv'], c['nc'], tuple(c.get('pol', (0, 'all', 'all', 'all'))), **meta)
     for famname, b, nv, nc in solgen.fixed_stream():
         add(famname, b, nv, nc, (0, 'while', 'while', 'while'))
@@ -198,6 +236,15 @@ def gen_cases(rng, n_cases):
         binary = rng.random() < 0.45
         if r < 0.004:
             add('missing-file', b'', rng.choice([0, 2]), rng.choice([0, 2]), solgen.rand_policy(rng), missing=True)
+        elif r < 0.03:
+            # the C API: NLW2_Read2SOLHandler_C -> NLW2_SOLHandler_C_Impl -> plain C callbacks (valid and damaged files, all option counts, vbtol)
+            s0 = solgen.rand_sol(rng, maxn=rng.choice([3, 12]), with_options=rng.random() < 0.85)
+            b = solgen.bin_bytes(s0) if binary else solgen.text_bytes(s0)
+            mut = 'valid'
+            if rng.random() < 0.4:
+                b, mut = solgen.mutate(rng, b, binary)
+            add('c-api:' + mut, b, s0.nvars if s0.options is not None else len(s0.primals), s0.ncons if s0.options is not None else len(s0.duals),
+                (0, 'all', 'all', 'all'), capi=True)
         elif r < 0.06:
             # the library's own handler: NLSolver::ReadSolution() / SOLHandler_Easy (nl-writer2/src/nl-solver.cc) on valid and damaged files
             s0 = solgen.rand_sol(rng, maxn=rng.choice([3, 12]), with_options=True)
@@ -295,6 +342,8 @@ def case_line(c, for_driver=False):
     rv, da, pa, sa = c['pol']
     if c.get('easy'):
         da = pa = sa = 'while' if for_driver else 'easy'
+    if c.get('capi'):
+        da = pa = sa = 'all' if for_driver else 'capi'
     if c.get('missing') and not for_driver:
         return 'case %s %d %d %d %d %s %s %s missing' % (c['id'], FX[0], c['nv'], c['nc'], rv, da, pa, sa)
     return 'case %s %d %d %d %d %s %s %s %s' % (c['id'], FX[0], c['nv'], c['nc'], rv, da, pa, sa, c['bytes'].hex() or '-')
@@ -507,7 +556,7 @@ def run(ck):
         ck.add_violation('translator:sol-guards', 'the integer decisions of the SOL reader/writer could not be re-translated from the source (the code around them changed): %s' % tr_err,
                          {'translator': 'translators/gen_solguards.py', 'output': tr_err}, found_input=False)
     proof_ok, failing = ck.proof_stage('MpVerif.C14.Props', 'MpVerif/C14/Props.lean', 'C14_',
-                                        ['MpVerif/C14/*.lean', 'MpVerif/Gen/SolGuards.lean'], expect_min=33)
+                                        ['MpVerif/C14/*.lean', 'MpVerif/Gen/SolGuards.lean'], expect_min=36)
     ck.log('proof stage: ok=%s failing=%s' % (proof_ok, failing[:12]))
     if ck.tier == 'thorough' and proof_ok:
         bad = ck.leanchecker(['MpVerif.C14.Props'])
@@ -528,6 +577,7 @@ def run(ck):
     corr_bad = []
     model_classes = set()
     n_easy = [0]
+    n_capi = [0]
     uninit_cases = []
     ub_hits = {}
     n_events = 0
@@ -546,6 +596,36 @@ def run(ck):
             continue
         if ml == 'bad-op' or il == 'bad-op':
             corr_bad.append((c, il, ml, 'bad-op'))
+            continue
+        if c.get('capi'):
+            n_capi[0] += 1
+            try:
+                expn, tag = norm_model(ml, binary)
+            except Exception as e:
+                corr_bad.append((c, il, ml, 'cannot interpret model line: %r' % (e,)))
+                continue
+            if tag is not None:
+                continue
+            mcap = re.search(r'opts n=\d+ cap=(\d+) ', il)
+            want, nopts = capi_expected(expn.partition(' ')[2], int(mcap.group(1)) if mcap else 9)
+            if il.split(' ')[1] == 'ABORT':
+                cls = il.split(' ')[2]
+                sig = 'c-api:abort:%s' % cls
+                if nopts is not None and nopts > 9 and cls in ('stack-buffer-overflow', 'index', 'SEGV', 'stack-buffer-underflow'):
+                    sig = 'c-api:ampl-options-copy:stack-buffer-overflow'
+                ck.add_violation(sig, 'reading through the C API (NLW2_Read2SOLHandler_C) aborted (%s); the reader hands %s option values to NLW2_SOLHandler_C_Impl::OnAMPLOptions, '
+                                 'which copies them into AMPLOptions_C::options_[9] [%d bytes, nVars=%d nCons=%d]' % (cls, nopts, len(c['bytes']), c['nv'], c['nc']),
+                                 {'case': case_line(c), 'impl': il, 'model': ml, 'how': 'harness/h_solread.cc capi mode (NLW2_MakeNLSolver_C, NLW2_SetFileStub_C, NLW2_Read2SOLHandler_C), ASan'})
+                codes['capi:ABORT'] = codes.get('capi:ABORT', 0) + 1
+                continue
+            body = il.partition(' ')[2]
+            mo = re.search(r'opts n=(\d+) cap=(\d+) ', body)
+            if mo and int(mo.group(1)) > int(mo.group(2)):
+                ck.add_violation('c-api:ampl-options-copy:n_options-exceeds-array', 'AMPLOptions_C handed to the C callback says n_options_ = %s for an array of %s'
+                                 % (mo.group(1), mo.group(2)), {'case': case_line(c), 'impl': il, 'model': ml})
+            if not capi_match(want, body):
+                corr_bad.append((c, il, ml, 'C API result differs; model expects: ' + want))
+            codes['capi:' + want.split(' ')[0].split('=')[1]] = codes.get('capi:' + want.split(' ')[0].split('=')[1], 0) + 1
             continue
         if c.get('easy'):
             n_easy[0] += 1
@@ -652,7 +732,7 @@ def run(ck):
         'generator_families': fam, 'result_codes_hit': codes, 'event_kinds_hit': evkinds, 'events_total': n_events,
         'known_ub_classes_hit': ub_hits,
         'model_outcome_classes': len(model_classes), 'model_result_codes': sorted({m[1] for m in model_classes}),
-        'library_handler_cases': n_easy[0],
+        'library_handler_cases': n_easy[0], 'c_api_cases': n_capi[0],
         'correspondence': {'lines_compared_model_vs_impl': len(cases), 'disagreements': len(corr_bad)},
         'exhaustive': False,
     })
